@@ -76,8 +76,9 @@ try:
         t0 = time.time()
         rd = f"/tmp/vs-{name}-replays"
         env = dict(os.environ, VERIF_REPO=vs, VERIF_REPLAY_DIR=rd, VERIF_MIN_SECONDS=os.environ.get("VERIF_MIN_SECONDS", "150"))
-        r = subprocess.run([os.path.join(VERIF, "check"), c, "--no-evidence"], capture_output=True, text=True, env=env)
-        meta["ran"].append(f"VERIF_REPO={vs} ./check {c} --no-evidence")
+        extra = ["--runs", os.environ["VERIF_RUNS"]] if os.environ.get("VERIF_RUNS") else []  # a smaller batch than the quick tier (recorded)
+        r = subprocess.run([os.path.join(VERIF, "check"), c, "--no-evidence"] + extra, capture_output=True, text=True, env=env)
+        meta["ran"].append(f"VERIF_REPO={vs} ./check {c} --no-evidence {' '.join(extra)}".strip())
         viol = [l for l in r.stdout.splitlines() if l.startswith("VIOLATION")]
         detail = [l for l in r.stdout.splitlines() if "violation class" in l or "differs" in l or "  minimised" in l or "_" in l and l.startswith("[") and "key=" in l]
         meta["checks"][c] = {"exit": r.returncode, "violation_lines": viol, "detail": [d[:400] for d in detail[:6]], "wall_s": round(time.time() - t0)}
